@@ -13,8 +13,8 @@ CHECK = {
          '(second generated body) and given a conflicting sibling (third generated body: a key-order / whitespace variant) so that the superseded revision '
          '(warm and flushed revision cache), the non-winning leaf and both open revisions are read as well. '
          'Reserved names: 70 (700) further bodies carry one of _sync, _sync_*, _purged (must be refused, or round-trip) or _id, _rev, _deleted, _revisions '
-         '(differential only) at the top level, each written twice through the same path - key spelled literally and with \\u escapes: the accept / refuse '
-         'decision must be the same. '
+         '(differential only) at the top level, each written three times through the same path - compact with the key spelled literally, with \\u '
+         'escapes, and with whitespace around every token: the accept / refuse decision must be the same. '
          'isgr part: bodies written on one peer are pushed / pulled to a second RestTester peer over V3 and V4 and read there. '
          'An evaluation = one exact comparison of a returned body against the written one; distinct_nontrivial = distinct (write path, read path, body) '
          'comparisons of accepted bodies.',
@@ -48,7 +48,8 @@ CHECK = {
    'paths.blip_pulls_completed': 10,
    'paths.underscore_keys_round_tripped': 10000,
    'paths.writes_rejected_with_underscore_keys': 200,
-   'paths.escape_differentials': 400,
+   'paths.spelling_differentials': 800,
+   'paths.winners_tombstoned': 1200,
    'paths.monitor_selfchecks': 5000,
    'isgr.replications_completed': 4,
    'isgr.replicated_documents_compared': 600,
